@@ -70,7 +70,9 @@ func PrepareCumulatedWeightsMap(
 	for _, c := range params.Criteria {
 		weights[c.Id] = 0
 	}
-	for _, a := range params.ConsideredAlternatives {
+	// summed in the order of the alternatives' ids: a floating point sum depends on the order of its terms,
+	// the importance of a criterion must not depend on the order the alternatives are listed in
+	for _, a := range *SortAlternativesByName(&params.ConsideredAlternatives) {
 		for crit, v := range a.Criteria {
 			w, ok := weights[crit]
 			if !ok {
